@@ -275,10 +275,12 @@ def run(F, chk):
             "socket_wants_write": lambda sb, truth, atom: atom[0] == "call" and atom[1].endswith("::socket_wants_write") and truth is False,
             "pending_rst_streams empty": lambda sb, truth, atom: atom[0] == "call" and atom[1].endswith("::is_empty") and truth is True and any(f == "pending_rst_streams" for a in atom[2]["args"] for _, f in guards.slice_of_operand(fw, a)["fields"]),
             "pending_window_updates empty": lambda sb, truth, atom: atom[0] == "call" and atom[1].endswith("::is_empty") and truth is True and any(f == "pending_window_updates" for a in atom[2]["args"] for _, f in guards.slice_of_operand(fw, a)["fields"]),
-            "expect_write none": lambda sb, truth, atom: atom[0] == "call" and atom[1].endswith("Option::<T>::is_none") and truth is True and any(f == "expect_write" for a in atom[2]["args"] for _, f in guards.slice_of_operand(fw, a)["fields"]),
+            "expect_write none": lambda sb, truth, atom: atom[0] == "call" and ((atom[1].endswith("Option::<T>::is_none") and truth is True) or (atom[1].endswith("Option::<T>::is_some") and truth is False)) and any(f == "expect_write" for a in atom[2]["args"] for _, f in guards.slice_of_operand(fw, a)["fields"]),
         }
         for name, pred in need.items():
             edges = lib.edges_where(fw, pred)
+            if name.endswith(" empty"):
+                edges = lib.empty_edges(fw, name.split()[0])
             key = "%s|WRITABLE removal behind %s" % (fw.path, name)
             if edges and all(lib.guarded_by(fw, x, edges) for x in removes):
                 re_.ok(key, fw.where(removes[0]), "interest.remove(WRITABLE) dominated by %s" % name)
